@@ -36,6 +36,10 @@ CASE_TIMEOUT = 600
 PY = '/venv/bin/python'
 
 
+# DataStreamProof.tla: InBounds / NoFabrication / Monotone / RaisedIsFinal for inputs of every size and all requests
+PROOFS = ['DataStreamProof']
+
+
 def model_checks(tier):
     return [dict(module='mc/MC_DataStream', cfg='mc/MC_DataStream_checked', workers=4,
                  must_cover=['Read', 'ReadRejected']),
